@@ -240,3 +240,12 @@ func (fr *Frame) namedHeapVars(h *ssa.BasicBlock, out map[string]func(*State) SV
 		}
 	}
 }
+
+// rootMode: the contract of the function under verification carries `mode <name>`.
+func (fr *Frame) rootMode(name string) bool {
+	root := fr
+	for root.callerFrame != nil {
+		root = root.callerFrame
+	}
+	return root.spec != nil && root.spec.Modes[name]
+}
